@@ -485,10 +485,10 @@ pub fn run(ctx: &mut Ctx) {
 	ctx.rule = "streams of 1-3 generated class files (+ trailing bytes) x interest masks at class/field/method/code/record level (each flag independently, all, none, one-off, one-on) x decline plans by ordinal (classes, fields, methods, method code, record components). Oracle: what the masked tree-building visitor receives == restriction of the full read by mask and plan (same order, nothing else disturbed); the cursor sits at the end of the k-th file after the k-th read for the full, (), masked and SimpleClassVisitor readers; replaying the full tree into the tree builder reproduces it; replaying into the masked visitor == reading into it. Non-trivial = mask neither all nor none and a member is declined before a member that is kept; distinct by case hash".into();
 	ctx.assume("whether the reader honours ClassInterests.fields / methods is not asserted (the property speaks about the items received)");
 	ctx.assume("expectations derive from duke's own full read, so defects of the full read (C01) do not count here");
-	ctx.run_sub("masked_and_replayed", ctx.tier.pick(24000, 1200000), strategy, check);
+	ctx.run_sub("masked_and_replayed", ctx.tier.pick(48000, 1200000), strategy, check);
 	ctx.run_sub(
 		"corpus_javac",
-		ctx.tier.pick(3000, 100_000),
+		ctx.tier.pick(6000, 100_000),
 		|| (proptest::collection::vec(any::<u16>(), 1..4), plan_strategy(), proptest::collection::vec(any::<u8>(), 0..6)).prop_map(|(picks, plan, trailing)| CorpusCase { picks, plan, trailing }),
 		corpus_check,
 	);
